@@ -35,6 +35,15 @@ class UnitEnvironment:
     def __init__(self, units):
         self.new_units = []
         self.new_types = []
+        try:
+            self._register(units)
+            check_unique_symbols()
+        except:
+            # registration failed part-way: remove what has been registered so far
+            self.close()
+            raise
+
+    def _register(self, units):
         for symbol, unit in units.items():
             if isinstance(unit, Quantity):
                 unit = {'magnitude':unit.magnitude.value*unit.baseunits.magnitude, 'dimensions':unit.baseunits.dimensions.value(dtype=list)}
@@ -52,7 +61,6 @@ class UnitEnvironment:
                 unit['prefixes'] = False
             UNIT_STANDARD.append(symbol, (unit['magnitude'], unit['dimensions'], unit['definition'], unit['name'], unit['prefixes']))
             self.new_units.append(symbol)
-        check_unique_symbols()
         
     def close(self):
         for unit in self.new_units:
